@@ -20,6 +20,8 @@ Over `Sop.Replication` (the model of the replication tracker, `fileIO.replicate`
   store info from the passive side and skips every store), `reinstate_log_flag_counterexample` (commits made while a
   reinstate is in progress are not logged when the L2 cache holds a status entry), `failover_forgotten_counterexample`
   (after a reinstate, a failover is not seen by a freshly started process).
+* Outside the quantifier: `unobserved_wipe`, `unobserved_wipe_witness`, `heal_not_faultFree` — a drive swapped for an
+  empty one before any write met the fault is emptied by the environment step alone; nothing is (or can be) recorded.
 -/
 namespace Sop.C27
 open Sop.Replication
@@ -372,6 +374,38 @@ theorem failover_forgotten_counterexample :
 theorem failover_seen_when_never_failed :
     (readHome (cold (run base [.failover]))).toggler = false := by
   decide
+
+/-! ## what is outside the property: the drive is swapped before any write met the fault
+
+`brk` and `heal` are steps of the environment, not of the code (`heal_not_faultFree`). When the passive drive fails,
+no operation of the code runs while it is down, and it is swapped for an empty one, then the passive folder is empty
+solely because of the `heal false` step: the code performed no passive write that failed, so nothing is recorded, and
+`ReinstateFailedDrives` refuses (`FailedToReplicate is false`). This is the same as emptying a healthy passive folder
+from outside; the property's quantifier (failures *at a replication step*) does not cover it, and the harness does not
+expect the folders to agree from then on (thorough seed 1 once reported this history as a violation). -/
+
+theorem heal_not_faultFree (s : State) (k : Bool) : ¬ FaultFree s (.heal k) := by
+  intro h; cases h
+
+/-- break + swap-for-empty with nothing in between changes nothing but the passive folder's contents (emptied) -/
+theorem unobserved_wipe (s : State) (f : Flags) (hg : s.g = some f) :
+    (run s [.brk .drive, .heal false]).g = s.g ∧ (run s [.brk .drive, .heal false]).l2 = s.l2 ∧
+    (run s [.brk .drive, .heal false]).logs = s.logs ∧
+    active (run s [.brk .drive, .heal false]) f = active s f ∧
+    content (passive (run s [.brk .drive, .heal false]) f) = content {} := by
+  cases ht : f.toggler <;>
+    simp [run, step, breakPassive, heal, hg, setSide, active, passive, side, ht, content]
+
+def wipedUnobserved : State := run base [.brk .drive, .heal false]
+
+/-- the witness the harness replays (`caseUnobservedWipe`): replica before, no failure recorded, active folder
+untouched, passive folder empty, reinstate refused -/
+theorem unobserved_wipe_witness :
+    wipedUnobserved.g = some { failed := false, toggler := true, logc := false } ∧
+    content base.f1 = content base.f0 ∧
+    content wipedUnobserved.f0 = content base.f0 ∧ content wipedUnobserved.f1 = content {} ∧
+    (reinstate wipedUnobserved).2 = "err:not-failed" := by
+  refine ⟨?_, ?_, ?_, ?_, ?_⟩ <;> decide +kernel
 
 /-! ## commit-time isolation, assembled -/
 
